@@ -1,6 +1,7 @@
 use crate::run::*;
 use serde_json::Value as J;
 
+pub mod c05;
 pub mod c06;
 pub mod c09;
 pub mod c10;
@@ -17,6 +18,7 @@ pub type ReplayFn = fn(&str, &J, &mut Stats) -> Result<Vec<Fail>, String>;
 
 pub fn lookup(id: &str) -> Option<(RunFn, ReplayFn)> {
     match id {
+        "C05" => Some((c05::run, c05::replay)),
         "C06" => Some((c06::run, c06::replay)),
         "C07" => Some((sqlprops::run_c07, sqlprops::replay_c07)),
         "C08" => Some((sqlprops::run_c08, sqlprops::replay_c08)),
